@@ -471,7 +471,23 @@ func (r *FnRun) execUnOp(st *State, x *ssa.UnOp) {
 				return
 			}
 		}
-		st.vals[x] = r.load(st, v.S, x.Type(), x.Name())
+		lv := r.load(st, v.S, x.Type(), x.Name())
+		st.vals[x] = lv
+		if fa, ok := x.X.(*ssa.FieldAddr); ok && len(r.W.Specs.FieldInvs) > 0 {
+			if st0, ok := derefType(fa.X.Type()).Underlying().(*types.Struct); ok {
+				key := typeKey(derefType(fa.X.Type())) + "." + st0.Field(fa.Field).Name()
+				if fi := r.W.Specs.FieldInvs[key]; fi != nil {
+					env := &Env{r: r, st: st, vars: map[string]Val{"v": lv}}
+					g := env.eval(fi.Expr)
+					if env.err != nil {
+						r.errorf("%s: fieldinv %s: %v", fi.File, key, env.err)
+					} else {
+						st.assume(g.S)
+						r.Assump["field invariant assumed on load: "+fi.Src] = true
+					}
+				}
+			}
+		}
 	case token.NOT:
 		st.vals[x] = boolVal(sNot(v.S))
 	case token.SUB:
@@ -977,7 +993,7 @@ func (r *FnRun) assertAtName(st *State, site ssa.Instruction, name string, args 
 		if want > 0 && r.matchOrdinal(site, pat) != want {
 			continue
 		}
-		env := &Env{r: r, st: st, old: r.entry, vars: map[string]Val{}, fn: r.Fn, pkg: r.entryEnv.pkg}
+		env := &Env{r: r, st: st, old: r.entry, vars: map[string]Val{}, fn: r.Fn, pkg: r.entryEnv.pkg, block: site.Block()}
 		for k, v := range r.entryEnv.vars {
 			env.vars[k] = v
 		}
